@@ -141,6 +141,24 @@ inductive IsIntegerValue : Str → Int → Prop
 def OctalWithZeroDigit (s : Str) : Prop :=
   ∃ (sg : Sign) (ds : Str), s = sg.chars ++ '0' :: ds ∧ ds ≠ [] ∧ (∀ c ∈ ds, isOctDigit c = true) ∧ '0' ∈ ds
 
+/-- body of octalValue after the sign: "0" 1*octalDigit -/
+def octalBodyD (neg : Bool) : Str → Option Int
+  | c :: ds => if c = '0' ∧ ds ≠ [] ∧ ds.all isOctDigit then some (signed neg (natOf 8 ds)) else none
+  | [] => none
+
+/-- **decision procedure for the DSP0004 integerValue grammar** (theorem `C20_dsp0004_parse_iff_grammar`:
+    `parse s = some v ↔ IsIntegerValue s v`).  It differs from pywbem's recogniser only in the octal digit class. -/
+def parse (s : Str) : Option Int :=
+  match binaryBody (splitSign s).1 (splitSign s).2 with
+  | some v => some v
+  | none =>
+    match octalBodyD (splitSign s).1 (splitSign s).2 with
+    | some v => some v
+    | none =>
+      match decimalBody (splitSign s).1 (splitSign s).2 with
+      | some v => some v
+      | none => hexBody (splitSign s).1 (splitSign s).2
+
 end Dsp0004
 
 end Pywbem.Model.IntLit
